@@ -341,6 +341,7 @@ func C10(ctx *core.Ctx) {
 		globalNodeMutation(ctx, cc, "C10.R19")
 		c10IdentifierForms(ctx, cc)
 		c10SeenItemsAreSkipped(ctx, cc)
+		c08NoBlanketRemoval(ctx, cc, "C10.R23")
 	}
 	gs, err := peg.ParseSource(string(src))
 	if err != nil {
